@@ -1264,6 +1264,41 @@ void amount_t::parse_conversion(const string& larger_str,
     smaller.commodity().set_larger(larger);
 }
 
+#if defined(LEDGER_VERIF)
+void amount_t::verif_rational(std::ostream& out) const
+{
+  static const char hexd[] = "0123456789abcdef";
+  if (! quantity) {
+    out << "A:null";
+    return;
+  }
+  out << "A:";
+  if (has_commodity()) {
+    const string sym(commodity().base_symbol());
+    for (string::size_type i = 0; i < sym.length(); i++) {
+      unsigned char c = static_cast<unsigned char>(sym[i]);
+      out << hexd[c >> 4] << hexd[c & 15];
+    }
+    if (commodity().has_annotation()) {
+      std::ostringstream buf;
+      commodity().write_annotations(buf, false);
+      const string ann(buf.str());
+      out << '~';
+      for (string::size_type i = 0; i < ann.length(); i++) {
+        unsigned char c = static_cast<unsigned char>(ann[i]);
+        out << hexd[c >> 4] << hexd[c & 15];
+      }
+    }
+  }
+  char * num = mpz_get_str(NULL, 10, mpq_numref(MP(quantity)));
+  char * den = mpz_get_str(NULL, 10, mpq_denref(MP(quantity)));
+  out << ':' << num << '/' << den << ':' << quantity->prec << ':'
+      << (quantity->has_flags(BIGINT_KEEP_PREC) ? 1 : 0);
+  std::free(num);
+  std::free(den);
+}
+#endif // LEDGER_VERIF
+
 void amount_t::print(std::ostream& _out, const uint_least8_t flags) const
 {
   VERIFY(valid());
